@@ -11,6 +11,7 @@ import DK.Driver.Cons
 import DK.Driver.History
 import DK.Driver.Validate
 import DK.Driver.Projection
+import DK.Driver.Hess2
 /-! Line driver: one JSON operation per input line, one JSON answer per output line. -/
 namespace DK.Driver
 open Lean
@@ -37,6 +38,7 @@ def handle (line : String) : String :=
       else if op.startsWith "hist." then historyOp op j
       else if op.startsWith "validate." then validateOp op j
       else if op.startsWith "proj." then projOp op j
+      else if op.startsWith "hess2." then hess2Op op j
       else throw s!"unknown op {op}" : Except String Json) with
     | .ok v => ok v
     | .error e => err e
